@@ -4,6 +4,7 @@ import PetgraphModel.Oracle.Reach
 import PetgraphModel.Oracle.Dist
 import PetgraphModel.Oracle.C10Judge
 import PetgraphModel.Model.C10ShortestPaths
+import PetgraphModel.Model.C10Bounded
 /-
 C10 driver.  Requests (after a `graph …` line; all node ids abstract, costs integers):
 
@@ -16,6 +17,15 @@ C10 driver.  Requests (after a `graph …` line; all node ids abstract, costs in
 Verdict = spec-level judge (`Oracle/C10Judge.lean`, against the abstract graph) first, then the exact
 comparison with the mirror model (`Model/C10ShortestPaths.lean`, on the view) restricted to what does
 not depend on the heap's tie order.
+
+Run-time checks of the hypotheses of the theorems (each proved to imply its hypothesis in
+`Theorems/C10.lean`, section "run-time checks of the hypotheses"): `viewOkB`, `viewOkMB`, `ixOkB` on
+the `graph` line; per request `srcOkB` (the source is a node), `1 ≤ k`, `admissibleB` (the heuristic is
+admissible and non-negative); the mirror model is run with the overflow-checked addition `addB M` of
+the request's cost type (`<ty>` = u32 | u64 | f32 | f64 | f32q | f64q; `q` = costs are multiples of
+1/8, printed in that unit), so a run that would leave the range in which the type's `+` is exact is
+reported instead of compared; the k-walk oracle is given the fuel `kspFuel v k + 1` that
+`C10_oracle_total` proves sufficient.
 -/
 namespace PetgraphModel.C10
 open PetgraphModel PetgraphModel.MGraph PetgraphModel.Oracle PetgraphModel.SP
@@ -74,8 +84,28 @@ def explainAstar (g : MGraph) (s : Nat) (goals : List Nat) (impl : String) : Str
 def showTable (T : KTable) : String :=
   String.intercalate ";" (T.map fun vr => s!"{vr.1}:{showInts vr.2}")
 
-def explainKsp (g : MGraph) (s : Nat) (goal : Option Nat) (k : Nat) (m : List (Nat × Int)) : String :=
-  match kWalks g s k with
+/-- the fuel the driver gives the k-walk oracle: at least the default and at least `kspFuel v k + 1`,
+which `C10_oracle_total` proves sufficient on every checked view -/
+def oracleFuel (v : View) (k : Nat) : Nat := max (kWalksFuel v.g k) (kspFuel v k + 1)
+
+/-- the source of a request is a node of the abstract graph -/
+def srcOkB (v : View) (s : Nat) : Bool := v.g.nodes.contains s
+
+/-- all weights of the abstract graph are non-negative (the property's precondition; part of `viewOkB`) -/
+def nonNegB (g : MGraph) : Bool := g.arcs.all fun a => decide (0 ≤ a.2.2)
+
+/-- the heuristic of an astar request, as a function -/
+def hFun (h : List (Nat × Int)) : Nat → Int := fun x => (h.lookup x).getD 0
+
+/-- the heuristic table is non-negative and admissible (against certified distances of the reversed graph) -/
+def admissibleB (g : MGraph) (goals : List Nat) (h : List (Nat × Int)) : Bool :=
+  h.all (fun vx => decide (0 ≤ vx.2)) && admissible g goals h
+
+def overflowMsg (ty : String) : String :=
+  s!"SPECFAIL generator left the proved range: a cost sum leaves the range in which + of {ty} is exact"
+
+def explainKsp (fuel : Nat) (g : MGraph) (s : Nat) (goal : Option Nat) (k : Nat) (m : List (Nat × Int)) : String :=
+  match kWalksF fuel g s k with
   | none => "k-walk oracle did not reach a fixed point"
   | some T => s!"k_shortest_path from {s} goal {showOptNat goal} k={k} returned {showIntPairs (sortMap m)}; the {k} cheapest walk costs per node are {showTable T}"
 
@@ -109,67 +139,91 @@ def step (d : DState) (req : List String) (impl : String) : DState × String :=
     match parseView req with
     | none => (d, "SPECFAIL unparsable graph line")
     | some v =>
-      if !(viewOkB v && viewOkMB v) then ({ v := v, ok := false }, "SPECFAIL edges(a) of this encoding does not describe the abstract graph (or a negative weight)")
-      else if !ixOkB v then ({ v := v, ok := false }, "SPECFAIL to_index of a node is not below node_bound, or not injective")
+      if !nonNegB v.g then ({ v := v, ok := false }, "SPECFAIL generator left the proved range: negative edge cost")
+      else if !(viewOkB v && viewOkMB v) then ({ v := v, ok := false }, "SPECFAIL side condition viewOkB/viewOkMB does not hold: edges(a) of this encoding does not describe the abstract graph")
+      else if !ixOkB v then ({ v := v, ok := false }, "SPECFAIL side condition ixOkB does not hold: to_index of a node is not below node_bound, or not injective")
       else ({ v := v, ok := true }, "ok")
-  | ["dij", _, s, goal] =>
-    if impl == "panic" then (d, "SPECFAIL dijkstra panicked") else
-    match s.toNat?, parseIntPairs impl with
-    | some s, some m =>
-      match parseGoal goal with
-      | none =>
-        let spec := if okDijAll d.v.g s m then none else some (explainDijAll d.v.g s m)
-        let model := match SP.dijkstra popMin d.v s none with
-          | some mm => showIntPairs (sortMap mm)
-          | none => "FUEL"
-        (d, verdict spec model (showIntPairs (sortMap m)))
-      | some t =>
-        let spec := if okDijGoal d.v.g s t m then none else some (explainDijGoal d.v.g s t m)
-        match SP.dijkstra popMin d.v s (some t) with
-        | some mm =>
-          let D := amGet mm t
-          (d, verdict spec (showIntPairs (sortMap (tieFree mm t D))) (showIntPairs (sortMap (tieFree m t D))))
-        | none => (d, verdict spec "FUEL" impl)
-    | _, _ => (d, s!"SPECFAIL malformed answer {impl}")
-  | ["astar", _, s, goals, h] =>
-    if impl == "panic" then (d, "SPECFAIL astar panicked") else
-    match s.toNat?, parseIntPairs h with
-    | some s, some h =>
-      let goals := parseNats goals
-      if !admissible d.v.g goals h then (d, "SPECFAIL bad request: the harness's heuristic is not admissible") else
-      let ans : Option (Option (Int × List Nat)) :=
-        if impl == "none" then some none else
-        match impl.splitOn "|" with
-        | [c, p] => c.toInt?.map fun c => some (c, parseNats p)
-        | _ => none
-      match ans with
-      | none => (d, s!"SPECFAIL malformed answer {impl}")
-      | some ans =>
-        let spec := if okAstar d.v.g s goals ans then none else some (explainAstar d.v.g s goals impl)
-        let model := match SP.astar popMin d.v s (fun x => goals.contains x) (fun x => (h.lookup x).getD 0) (astarBound d.v.g s) with
-          | .notFound => "none"
-          | .found c _ => toString c
-          | .panic => "panic"
-          | .fuel => "FUEL"
-        let implCost := match ans with | none => "none" | some (c, _) => toString c
-        (d, verdict spec model implCost)
-    | _, _ => (d, "SPECFAIL bad request")
-  | ["ksp", _, s, goal, k] =>
-    if impl == "panic" then (d, "SPECFAIL k_shortest_path panicked") else
-    match s.toNat?, k.toNat?, parseIntPairs impl with
-    | some s, some k, some m =>
+  | ["dij", ty, s, goal] =>
+    if !d.ok then (d, "SPECFAIL no checked graph for this request") else
+    match costMax ty, s.toNat? with
+    | some M, some s =>
+      if !srcOkB d.v s then (d, "SPECFAIL generator left the proved range: the source is not a node") else
       let goal := parseGoal goal
-      let spec := if okKsp d.v.g s goal k m then none else some (explainKsp d.v.g s goal k m)
-      match SP.kShortestPath popMin d.v s goal k with
-      | .done mm =>
-        match goal with
-        | none => (d, verdict spec (showIntPairs (sortMap mm)) (showIntPairs (sortMap m)))
-        | some t =>
-          let D := amGet mm t
-          (d, verdict spec (showIntPairs (sortMap (tieFree mm t D))) (showIntPairs (sortMap (tieFree m t D))))
-      | .panic => (d, verdict spec "panic" impl)
-      | .fuel => (d, verdict spec "FUEL" impl)
-    | _, _, _ => (d, s!"SPECFAIL malformed answer {impl}")
+      match SP.dijkstraG (addB M) popMin d.v s goal with
+      | none => (d, overflowMsg ty)
+      | some model =>
+        if impl == "panic" then (d, "SPECFAIL dijkstra panicked") else
+        match parseIntPairs impl with
+        | none => (d, s!"SPECFAIL malformed answer {impl}")
+        | some m =>
+          match goal with
+          | none =>
+            let spec := if okDijAll d.v.g s m then none else some (explainDijAll d.v.g s m)
+            match model with
+            | some mm => (d, verdict spec (showIntPairs (sortMap mm)) (showIntPairs (sortMap m)))
+            | none => (d, verdict spec "FUEL" (showIntPairs (sortMap m)))
+          | some t =>
+            let spec := if okDijGoal d.v.g s t m then none else some (explainDijGoal d.v.g s t m)
+            match model with
+            | some mm =>
+              let D := amGet mm t
+              (d, verdict spec (showIntPairs (sortMap (tieFree mm t D))) (showIntPairs (sortMap (tieFree m t D))))
+            | none => (d, verdict spec "FUEL" impl)
+    | _, _ => (d, "SPECFAIL bad request")
+  | ["astar", ty, s, goals, h] =>
+    if !d.ok then (d, "SPECFAIL no checked graph for this request") else
+    match costMax ty, s.toNat?, parseIntPairs h with
+    | some M, some s, some h =>
+      let goals := parseNats goals
+      if !srcOkB d.v s then (d, "SPECFAIL generator left the proved range: the source is not a node") else
+      if !admissibleB d.v.g goals h then (d, "SPECFAIL generator left the proved range: the heuristic is not admissible and non-negative") else
+      match SP.astarG (addB M) popMin d.v s (fun x => goals.contains x) (hFun h) (astarBound d.v.g s) with
+      | none => (d, overflowMsg ty)
+      | some res =>
+        if impl == "panic" then (d, "SPECFAIL astar panicked") else
+        let ans : Option (Option (Int × List Nat)) :=
+          if impl == "none" then some none else
+          match impl.splitOn "|" with
+          | [c, p] => c.toInt?.map fun c => some (c, parseNats p)
+          | _ => none
+        match ans with
+        | none => (d, s!"SPECFAIL malformed answer {impl}")
+        | some ans =>
+          let spec := if okAstar d.v.g s goals ans then none else some (explainAstar d.v.g s goals impl)
+          let model := match res with
+            | .notFound => "none"
+            | .found c _ => toString c
+            | .panic => "panic"
+            | .fuel => "FUEL"
+          let implCost := match ans with | none => "none" | some (c, _) => toString c
+          (d, verdict spec model implCost)
+    | _, _, _ => (d, "SPECFAIL bad request")
+  | ["ksp", ty, s, goal, k] =>
+    if !d.ok then (d, "SPECFAIL no checked graph for this request") else
+    match costMax ty, s.toNat?, k.toNat? with
+    | some M, some s, some k =>
+      if !srcOkB d.v s then (d, "SPECFAIL generator left the proved range: the source is not a node") else
+      if k == 0 then (d, "SPECFAIL generator left the proved range: k = 0") else
+      let goal := parseGoal goal
+      match SP.kShortestPathG (addB M) popMin d.v s goal k with
+      | none => (d, overflowMsg ty)
+      | some res =>
+        if impl == "panic" then (d, "SPECFAIL k_shortest_path panicked") else
+        match parseIntPairs impl with
+        | none => (d, s!"SPECFAIL malformed answer {impl}")
+        | some m =>
+          let fuel := oracleFuel d.v k
+          let spec := if okKspF fuel d.v.g s goal k m then none else some (explainKsp fuel d.v.g s goal k m)
+          match res with
+          | .done mm =>
+            match goal with
+            | none => (d, verdict spec (showIntPairs (sortMap mm)) (showIntPairs (sortMap m)))
+            | some t =>
+              let D := amGet mm t
+              (d, verdict spec (showIntPairs (sortMap (tieFree mm t D))) (showIntPairs (sortMap (tieFree m t D))))
+          | .panic => (d, verdict spec "panic" impl)
+          | .fuel => (d, verdict spec "FUEL" impl)
+    | _, _, _ => (d, "SPECFAIL bad request")
   | ["msc", _, a, b] =>
     match parseScore a, parseScore b with
     | some a, some b =>
